@@ -271,4 +271,781 @@ theorem Mono.setTy (b : Builder) (k : Key) (t : Ty)
       · rw [ho] at hx; simp at hx
       · rw [ho] at hx; rw [e2]; exact hx
 
+
+/-! ### soundness of one connection, the work-list invariants -/
+
+/-- the connection `s → e` has been validated under the current types: assignable for sure,
+    or possibly assignable with the run-time check installed -/
+def SoundE (im : Impl) (b : Builder) (s e : Key) : Prop :=
+  match checkAssignable im (b.nodeOut s) (b.nodeIn e) with
+  | .mustNot => False
+  | .may => (s, e) ∈ b.mayEdges
+  | .must => True
+
+theorem checkAssignable_none_right (im : Impl) (x : Option Ty) : checkAssignable im x none = .mustNot := by
+  cases x <;> rfl
+
+theorem SoundE.typed {im : Impl} {b : Builder} {s e : Key} (h : SoundE im b s e) :
+    ∃ A B, b.nodeOut s = some A ∧ b.nodeIn e = some B := by
+  unfold SoundE at h
+  rcases ho : b.nodeOut s with _ | A
+  · simp [ho, checkAssignable] at h
+  · rcases hi : b.nodeIn e with _ | B
+    · simp [hi, checkAssignable_none_right] at h
+    · exact ⟨A, B, rfl, rfl⟩
+
+theorem SoundE.mono {im : Impl} {b b' : Builder} {s e : Key} (hm : Mono b b') (h : SoundE im b s e) :
+    SoundE im b' s e := by
+  obtain ⟨A, B, ho, hi⟩ := h.typed
+  unfold SoundE at h ⊢
+  rw [ho, hi] at h
+  rw [hm.tout s A ho, hm.tin e B hi]
+  cases hc : checkAssignable im (some A) (some B) <;> simp only [hc] at h ⊢
+  · exact hm.may _ h
+
+/-- every pending entry with exactly one typed end has that end typed `T` -/
+def Q (b : Builder) (T : Ty) : Prop :=
+  ∀ s pe, pe ∈ getSlice b.toValidate s →
+    (b.nodeOut s = none → b.nodeIn pe.dst = none ∨ b.nodeIn pe.dst = some T) ∧
+    (b.nodeIn pe.dst = none → b.nodeOut s = none ∨ b.nodeOut s = some T)
+
+/-- untyped ends of pending entries are nodes of the graph; no entry carries field mappings -/
+def PN (b : Builder) : Prop :=
+  ∀ s pe, pe ∈ getSlice b.toValidate s →
+    (b.nodeIn pe.dst = none → b.hasNode pe.dst = true) ∧ (b.nodeOut s = none → b.hasNode s = true) ∧
+    pe.mapped = none
+
+/-- `b'` differs from `b` in types only by nodes newly typed `T` -/
+structure StepT (b b' : Builder) (T : Ty) : Prop where
+  mono : Mono b b'
+  tin : ∀ x, b'.nodeIn x = b.nodeIn x ∨ b'.nodeIn x = some T
+  tout : ∀ x, b'.nodeOut x = b.nodeOut x ∨ b'.nodeOut x = some T
+
+theorem StepT.refl (b : Builder) (T : Ty) : StepT b b T :=
+  ⟨Mono.refl b, fun _ => Or.inl rfl, fun _ => Or.inl rfl⟩
+
+theorem StepT.trans {a b c : Builder} {T : Ty} (h1 : StepT a b T) (h2 : StepT b c T) : StepT a c T := by
+  refine ⟨h1.mono.trans h2.mono, fun x => ?_, fun x => ?_⟩
+  · rcases h2.tin x with e | e
+    · rw [e]; exact h1.tin x
+    · exact Or.inr e
+  · rcases h2.tout x with e | e
+    · rw [e]; exact h1.tout x
+    · exact Or.inr e
+
+theorem StepT.setTy (b : Builder) (k : Key) (T : Ty)
+    (hi : b.nodeIn k = none ∨ b.nodeIn k = some T) (ho : b.nodeOut k = none ∨ b.nodeOut k = some T) :
+    StepT b (b.setTy k T) T := by
+  refine ⟨Mono.setTy b k T hi ho, fun x => ?_, fun x => ?_⟩
+  · rcases (setTy_cases b k T x).1 with e | ⟨_, e⟩
+    · exact Or.inl e
+    · exact Or.inr e
+  · rcases (setTy_cases b k T x).2 with e | ⟨_, e⟩
+    · exact Or.inl e
+    · exact Or.inr e
+
+theorem Q.step {b b' : Builder} {T : Ty} (hq : Q b T) (hs : StepT b b' T)
+    (htv : ∀ s pe, pe ∈ getSlice b'.toValidate s → pe ∈ getSlice b.toValidate s) : Q b' T := by
+  intro s pe hpe
+  have hq0 := hq s pe (htv s pe hpe)
+  constructor
+  · intro ho'
+    have ho : b.nodeOut s = none := by
+      rcases h : b.nodeOut s with _ | A
+      · rfl
+      · have := hs.mono.tout s A h; rw [ho'] at this; simp at this
+    rcases hs.tin pe.dst with e | e
+    · rw [e]; exact hq0.1 ho
+    · exact Or.inr e
+  · intro hi'
+    have hi : b.nodeIn pe.dst = none := by
+      rcases h : b.nodeIn pe.dst with _ | A
+      · rfl
+      · have := hs.mono.tin pe.dst A h; rw [hi'] at this; simp at this
+    rcases hs.tout s with e | e
+    · rw [e]; exact hq0.2 hi
+    · exact Or.inr e
+
+theorem PN.step {b b' : Builder} (hp : PN b) (hm : Mono b b') (hf : Frame b b')
+    (htv : ∀ s pe, pe ∈ getSlice b'.toValidate s → pe ∈ getSlice b.toValidate s) : PN b' := by
+  intro s pe hpe
+  have h0 := hp s pe (htv s pe hpe)
+  refine ⟨fun hi' => ?_, fun ho' => ?_, h0.2.2⟩
+  · rw [hf.hasNode]; apply h0.1
+    rcases h : b.nodeIn pe.dst with _ | A
+    · rfl
+    · have := hm.tin pe.dst A h; rw [hi'] at this; simp at this
+  · rw [hf.hasNode]; apply h0.2.1
+    rcases h : b.nodeOut s with _ | A
+    · rfl
+    · have := hm.tout s A h; rw [ho'] at this; simp at this
+
+theorem checkAssignable_same (im : Impl) (T : Ty) : checkAssignable im (some T) (some T) = .must := by
+  simp [checkAssignable]
+
+
+/-! ### one pass over the slice of one start key -/
+
+/-- the local `startNodeOutputType` is either current, or stale-`nil` while the start node has
+    meanwhile been typed `T` (and then every remaining end is untyped or typed `T`) -/
+def SOk (b : Builder) (s : Key) (sTy : Option Ty) (T : Ty) (entries : List PEdge) : Prop :=
+  sTy = b.nodeOut s ∨
+  (sTy = none ∧ s ≠ START ∧ s ≠ END ∧ b.nodeIn s = some T ∧ b.nodeOut s = some T ∧
+     ∀ pe ∈ entries, b.nodeIn pe.dst = none ∨ b.nodeIn pe.dst = some T)
+
+theorem SOk.tail {b : Builder} {s : Key} {sTy : Option Ty} {T : Ty} {pe : PEdge} {rest : List PEdge}
+    (h : SOk b s sTy T (pe :: rest)) : SOk b s sTy T rest := by
+  rcases h with h | ⟨h1, h2, h3, h4, h5, h6⟩
+  · exact Or.inl h
+  · exact Or.inr ⟨h1, h2, h3, h4, h5, fun x hx => h6 x (List.mem_cons_of_mem _ hx)⟩
+
+theorem setTy_toValidate (b : Builder) (k : Key) (t : Ty) : (b.setTy k t).toValidate = b.toValidate := rfl
+
+theorem SoundE.same {im : Impl} {b : Builder} {s e : Key} {T : Ty}
+    (ho : b.nodeOut s = some T) (hi : b.nodeIn e = some T) : SoundE im b s e := by
+  unfold SoundE; rw [ho, hi, checkAssignable_same]; trivial
+
+/-- what the rest of a pass gives, composed with one step `b → b1` -/
+private theorem compose_step {im : Impl} {T : Ty} {s : Key} {b b1 b' : Builder} {pe : PEdge}
+    {rest k2 : List PEdge} {kept kept' : List PEdge}
+    (h1 : StepT b b1 T) (f1 : Frame b b1) (t1 : b1.toValidate = b.toValidate)
+    (hsound : SoundE im b1 s pe.dst)
+    (hw' : WF b') (hst : StepT b1 b' T) (hfr : Frame b1 b') (htv : b'.toValidate = b1.toValidate)
+    (hk : kept' = kept.reverse ++ k2) (hk2 : ∀ x ∈ k2, x ∈ rest)
+    (hall : ∀ x ∈ rest, x ∈ k2 ∨ SoundE im b' s x.dst) :
+    WF b' ∧ StepT b b' T ∧ Frame b b' ∧ b'.toValidate = b.toValidate ∧
+      ∃ k2, kept' = kept.reverse ++ k2 ∧ (∀ x ∈ k2, x ∈ pe :: rest) ∧
+        (∀ x ∈ pe :: rest, x ∈ k2 ∨ SoundE im b' s x.dst) := by
+  refine ⟨hw', h1.trans hst, f1.trans hfr, htv.trans t1, k2, hk, fun x hx => List.mem_cons_of_mem _ (hk2 x hx), ?_⟩
+  intro x hx
+  rcases List.mem_cons.mp hx with e | e
+  · subst e; exact Or.inr (hsound.mono hst.mono)
+  · exact hall x e
+
+theorem procEntries_spec (im : Impl) (T : Ty) (s : Key) (sTy : Option Ty) :
+    ∀ (entries : List PEdge) (b : Builder) (kept : List PEdge) (ch : Bool),
+      WF b → Q b T → PN b →
+      (∀ pe ∈ entries, pe ∈ getSlice b.toValidate s) →
+      SOk b s sTy T entries →
+      ∀ b' kept' ch', procEntries im s sTy entries b kept ch = .ok (b', kept', ch') →
+        WF b' ∧ StepT b b' T ∧ Frame b b' ∧ b'.toValidate = b.toValidate ∧
+        ∃ k2, kept' = kept.reverse ++ k2 ∧ (∀ pe ∈ k2, pe ∈ entries) ∧
+          (∀ pe ∈ entries, pe ∈ k2 ∨ SoundE im b' s pe.dst) := by
+  intro entries
+  induction entries with
+  | nil =>
+    intro b kept ch hw _ _ _ _ b' kept' ch' h
+    simp only [procEntries, Except.ok.injEq, Prod.mk.injEq] at h
+    obtain ⟨rfl, rfl, _⟩ := h
+    exact ⟨hw, StepT.refl _ _, Frame.refl _, rfl, [], by simp, by simp, by simp⟩
+  | cons pe rest ih =>
+    intro b kept ch hw hq hp hsub hso b' kept' ch' h
+    have hpe : pe ∈ getSlice b.toValidate s := hsub pe List.mem_cons_self
+    have hsubr : ∀ x ∈ rest, x ∈ getSlice b.toValidate s := fun x hx => hsub x (List.mem_cons_of_mem _ hx)
+    have hq0 := hq s pe hpe
+    have hp0 := hp s pe hpe
+    rcases hs : sTy with _ | st <;> rcases hd : b.nodeIn pe.dst with _ | et
+    · -- (nil, nil): the entry stays
+      subst hs
+      simp only [procEntries, hd] at h
+      obtain ⟨hw', hst, hfr, htv, k2, hk, hk2, hall⟩ := ih b (pe :: kept) ch hw hq hp hsubr hso.tail b' kept' ch' h
+      refine ⟨hw', hst, hfr, htv, pe :: k2, by simp [hk], ?_, ?_⟩
+      · intro x hx
+        rcases List.mem_cons.mp hx with e | e
+        · subst e; exact List.mem_cons_self
+        · exact List.mem_cons_of_mem _ (hk2 x e)
+      · intro x hx
+        rcases List.mem_cons.mp hx with e | e
+        · subst e; exact Or.inl List.mem_cons_self
+        · rcases hall x e with h1 | h1
+          · exact Or.inl (List.mem_cons_of_mem _ h1)
+          · exact Or.inr h1
+    · -- (nil, typed): the start node takes the end's type
+      subst hs
+      simp only [procEntries, hd] at h
+      have hfacts : et = T ∧ (b.nodeIn s = none ∨ b.nodeIn s = some T) ∧ (b.nodeOut s = none ∨ b.nodeOut s = some T) ∧
+          (∀ x ∈ rest, b.nodeIn x.dst = none ∨ b.nodeIn x.dst = some T) ∧ b.hasNode s = true ∧ s ≠ START ∧ s ≠ END := by
+        rcases hso with h0 | ⟨_, hr1, hr2, h2, h3, h4⟩
+        · have hon : b.nodeOut s = none := h0.symm
+          have hin : b.nodeIn s = none := (hw.untyped_iff s).mpr hon
+          have he : et = T := by
+            rcases hq0.1 hon with e | e
+            · rw [hd] at e; simp at e
+            · rw [hd] at e; simpa using e
+          have hne := nodeOut_none_ne b s hon
+          exact ⟨he, Or.inl hin, Or.inl hon, fun x hx => (hq s x (hsubr x hx)).1 hon, hp0.2.1 hon, hne.1, hne.2⟩
+        · have he : et = T := by
+            rcases h4 pe List.mem_cons_self with e | e
+            · rw [hd] at e; simp at e
+            · rw [hd] at e; simpa using e
+          exact ⟨he, Or.inr h2, Or.inr h3, fun x hx => h4 x (List.mem_cons_of_mem _ hx),
+            hasNode_of_nodeIn h2 hr1 hr2, hr1, hr2⟩
+      obtain ⟨he, hin, hon, hrest, hhas, hr1, hr2⟩ := hfacts
+      subst he
+      have hst1 : StepT b (b.setTy s et) et := StepT.setTy b s et hin hon
+      have hi1 : (b.setTy s et).nodeIn s = some et := by rw [nodeIn_setTy_self b s et hr1 hr2, hhas]; rfl
+      have ho1 : (b.setTy s et).nodeOut s = some et := by rw [nodeOut_setTy_self b s et hr1 hr2, hhas]; rfl
+      have hso1 : SOk (b.setTy s et) s none et rest := by
+        refine Or.inr ⟨rfl, hr1, hr2, hi1, ho1, fun x hx => ?_⟩
+        rcases hst1.tin x.dst with e | e
+        · rw [e]; exact hrest x hx
+        · exact Or.inr e
+      have htv1 : ∀ s' x, x ∈ getSlice (b.setTy s et).toValidate s' → x ∈ getSlice b.toValidate s' := fun _ _ hx => hx
+      obtain ⟨hw', hst, hfr, htv, k2, hk, hk2, hall⟩ :=
+        ih (b.setTy s et) kept true (hw.setTy s et) (hq.step hst1 htv1) (hp.step hst1.mono (Frame.setTy b s et) htv1)
+          hsubr hso1 b' kept' ch' h
+      exact compose_step hst1 (Frame.setTy b s et) rfl
+        (SoundE.same ho1 (hst1.mono.tin _ _ hd)) hw' hst hfr htv hk hk2 hall
+    · -- (typed, nil): the end node takes the start's type
+      subst hs
+      simp only [procEntries, hd] at h
+      have hcur : b.nodeOut s = some st := by
+        rcases hso with h0 | ⟨h0, _⟩
+        · exact h0.symm
+        · simp at h0
+      have he : st = T := by
+        rcases hq0.2 hd with e | e
+        · rw [hcur] at e; simp at e
+        · rw [hcur] at e; simpa using e
+      subst he
+      have hdo : b.nodeOut pe.dst = none := (hw.untyped_iff _).mp hd
+      have hne := nodeIn_none_ne b pe.dst hd
+      have hhas : b.hasNode pe.dst = true := hp0.1 hd
+      have hsd : s ≠ pe.dst := by
+        intro e; rw [← e] at hdo; rw [hdo] at hcur; simp at hcur
+      have hst1 : StepT b (b.setTy pe.dst st) st := StepT.setTy b pe.dst st (Or.inl hd) (Or.inl hdo)
+      have hi1 : (b.setTy pe.dst st).nodeIn pe.dst = some st := by
+        rw [nodeIn_setTy_self b pe.dst st hne.1 hne.2, hhas]; rfl
+      have ho1 : (b.setTy pe.dst st).nodeOut s = some st := by
+        rw [nodeOut_setTy_ne b pe.dst s st hsd]; exact hcur
+      have hso1 : SOk (b.setTy pe.dst st) s (some st) st rest := Or.inl ho1.symm
+      have htv1 : ∀ s' x, x ∈ getSlice (b.setTy pe.dst st).toValidate s' → x ∈ getSlice b.toValidate s' := fun _ _ hx => hx
+      obtain ⟨hw', hst, hfr, htv, k2, hk, hk2, hall⟩ :=
+        ih (b.setTy pe.dst st) kept true (hw.setTy _ _) (hq.step hst1 htv1)
+          (hp.step hst1.mono (Frame.setTy b _ _) htv1) hsubr hso1 b' kept' ch' h
+      exact compose_step hst1 (Frame.setTy b _ _) rfl (SoundE.same ho1 hi1) hw' hst hfr htv hk hk2 hall
+    · -- (typed, typed): the entry is checked
+      subst hs
+      have hcur : b.nodeOut s = some st := by
+        rcases hso with h0 | ⟨h0, _⟩
+        · exact h0.symm
+        · simp at h0
+      simp only [procEntries, hd, hp0.2.2] at h
+      rcases hc : checkAssignable im (some st) (some et) with _ | _ | _
+      · simp [hc] at h
+      · -- must
+        simp only [hc] at h
+        have hsound : SoundE im b s pe.dst := by unfold SoundE; rw [hcur, hd, hc]; trivial
+        obtain ⟨hw', hst, hfr, htv, k2, hk, hk2, hall⟩ :=
+          ih b kept true hw hq hp hsubr hso.tail b' kept' ch' h
+        exact compose_step (StepT.refl b T) (Frame.refl b) rfl hsound hw' hst hfr htv hk hk2 hall
+      · -- may: the run-time check is installed
+        simp only [hc] at h
+        let b1 : Builder := { b with mayEdges := b.mayEdges ++ [(s, pe.dst)] }
+        have hst1 : StepT b b1 T :=
+          ⟨⟨fun _ _ hx => hx, fun _ _ hx => hx, fun x hx => List.mem_append_left _ hx⟩, fun _ => Or.inl rfl, fun _ => Or.inl rfl⟩
+        have hsound : SoundE im b1 s pe.dst := by
+          unfold SoundE
+          show (match checkAssignable im (b.nodeOut s) (b.nodeIn pe.dst) with
+            | .mustNot => False | .may => (s, pe.dst) ∈ b.mayEdges ++ [(s, pe.dst)] | .must => True)
+          rw [hcur, hd, hc]; simp
+        have hso1 : SOk b1 s (some st) T rest := Or.inl hcur.symm
+        obtain ⟨hw', hst, hfr, htv, k2, hk, hk2, hall⟩ :=
+          ih b1 kept true hw (hq.step hst1 (fun _ _ hx => hx)) (hp.step hst1.mono (Frame.refl b) (fun _ _ hx => hx))
+            hsubr hso1 b' kept' ch' h
+        exact compose_step hst1 (Frame.refl b) rfl hsound hw' hst hfr htv hk hk2 hall
+
+
+/-! ### slices of the work list -/
+
+theorem getSlice_setSlice_ne (tv : List (Key × List PEdge)) (s s' : Key) (nl : List PEdge) (h : s' ≠ s) :
+    getSlice (setSlice tv s nl) s' = getSlice tv s' := by
+  induction tv with
+  | nil => rfl
+  | cons p tv ih =>
+    obtain ⟨k, l⟩ := p
+    simp only [setSlice]
+    by_cases hk : k = s
+    · subst hk
+      simp only [↓reduceIte, getSlice]
+      have : ¬ k = s' := fun e => h e.symm
+      simp [this]
+    · simp only [hk, ↓reduceIte, getSlice]
+      split
+      · rfl
+      · exact ih
+
+theorem getSlice_setSlice_self (tv : List (Key × List PEdge)) (s : Key) (nl : List PEdge)
+    (h : s ∈ tv.map (·.1)) : getSlice (setSlice tv s nl) s = nl := by
+  induction tv with
+  | nil => simp at h
+  | cons p tv ih =>
+    obtain ⟨k, l⟩ := p
+    simp only [setSlice]
+    by_cases hk : k = s
+    · simp [hk, getSlice]
+    · simp only [hk, ↓reduceIte, getSlice]
+      have : s ∈ tv.map (·.1) := by
+        simp only [List.map_cons, List.mem_cons] at h
+        rcases h with e | e
+        · exact absurd e.symm hk
+        · exact e
+      exact ih this
+
+theorem mem_getSlice_key {tv : List (Key × List PEdge)} {s : Key} {x : PEdge} (h : x ∈ getSlice tv s) :
+    s ∈ tv.map (·.1) := by
+  induction tv with
+  | nil => simp [getSlice] at h
+  | cons p tv ih =>
+    obtain ⟨k, l⟩ := p
+    simp only [getSlice] at h
+    by_cases hk : k = s
+    · simp [hk]
+    · simp only [hk, ↓reduceIte] at h
+      simp only [List.map_cons, List.mem_cons]
+      exact Or.inr (ih h)
+
+theorem getSlice_setSlice_sub (tv : List (Key × List PEdge)) (s : Key) (nl : List PEdge) (x : PEdge)
+    (h : x ∈ getSlice (setSlice tv s nl) s) : x ∈ nl := by
+  have hk : s ∈ (setSlice tv s nl).map (·.1) := mem_getSlice_key h
+  have hk' : s ∈ tv.map (·.1) := by
+    have : (setSlice tv s nl).map (·.1) = tv.map (·.1) := by
+      clear h hk
+      induction tv with
+      | nil => rfl
+      | cons p tv ih =>
+        obtain ⟨k, l⟩ := p
+        simp only [setSlice]
+        split
+        · simp
+        · simp [ih]
+    rwa [this] at hk
+  rwa [getSlice_setSlice_self tv s nl hk'] at h
+
+theorem setSlice_same (tv : List (Key × List PEdge)) (s : Key) : setSlice tv s (getSlice tv s) = tv := by
+  induction tv with
+  | nil => rfl
+  | cons p tv ih =>
+    obtain ⟨k, l⟩ := p
+    simp only [setSlice, getSlice]
+    by_cases hk : k = s
+    · simp [hk]
+    · simp [hk, ih]
+
+theorem pendingCount_setSlice_le (tv : List (Key × List PEdge)) (s : Key) (nl : List PEdge)
+    (h : nl.length ≤ (getSlice tv s).length) :
+    pendingCount (setSlice tv s nl) ≤ pendingCount tv ∧
+    (nl.length < (getSlice tv s).length → pendingCount (setSlice tv s nl) < pendingCount tv) := by
+  induction tv with
+  | nil => simp [setSlice, getSlice] at h ⊢
+  | cons p tv ih =>
+    obtain ⟨k, l⟩ := p
+    simp only [setSlice, getSlice] at h ⊢
+    by_cases hk : k = s
+    · simp only [hk, ↓reduceIte] at h ⊢
+      simp only [pendingCount, List.map_cons, List.sum_cons]
+      omega
+    · simp only [hk, ↓reduceIte] at h ⊢
+      have := ih h
+      simp only [pendingCount, List.map_cons, List.sum_cons] at this ⊢
+      omega
+
+
+/-! ### one round, the whole loop: what is preserved -/
+
+/-- relation between the state before and after (part of) `updateToValidateMap` -/
+structure Upd (im : Impl) (b b' : Builder) (T : Ty) : Prop where
+  wf : WF b'
+  step : StepT b b' T
+  frame : Frame b b'
+  shrink : ∀ s pe, pe ∈ getSlice b'.toValidate s → pe ∈ getSlice b.toValidate s
+  resolved : ∀ s pe, pe ∈ getSlice b.toValidate s → pe ∈ getSlice b'.toValidate s ∨ SoundE im b' s pe.dst
+
+theorem Upd.refl (im : Impl) {b : Builder} (hw : WF b) (T : Ty) : Upd im b b T :=
+  ⟨hw, StepT.refl _ _, Frame.refl _, fun _ _ h => h, fun _ _ h => Or.inl h⟩
+
+theorem Upd.trans {im : Impl} {a b c : Builder} {T : Ty} (h1 : Upd im a b T) (h2 : Upd im b c T) : Upd im a c T := by
+  refine ⟨h2.wf, h1.step.trans h2.step, h1.frame.trans h2.frame,
+    fun s pe h => h1.shrink s pe (h2.shrink s pe h), fun s pe h => ?_⟩
+  rcases h1.resolved s pe h with e | e
+  · exact h2.resolved s pe e
+  · exact Or.inr (e.mono h2.step.mono)
+
+theorem Upd.q {im : Impl} {b b' : Builder} {T : Ty} (h : Upd im b b' T) (hq : Q b T) : Q b' T :=
+  hq.step h.step h.shrink
+
+theorem Upd.pn {im : Impl} {b b' : Builder} {T : Ty} (h : Upd im b b' T) (hp : PN b) : PN b' :=
+  hp.step h.step.mono h.frame h.shrink
+
+theorem updRound_spec (im : Impl) (T : Ty) :
+    ∀ (ks : List Key) (b : Builder) (ch : Bool), WF b → Q b T → PN b →
+      ∀ b' ch', updRound im ks b ch = .ok (b', ch') → Upd im b b' T := by
+  intro ks
+  induction ks with
+  | nil =>
+    intro b ch hw _ _ b' ch' h
+    simp only [updRound, Except.ok.injEq, Prod.mk.injEq] at h
+    obtain ⟨rfl, _⟩ := h
+    exact Upd.refl im hw T
+  | cons s ks ih =>
+    intro b ch hw hq hp b' ch' h
+    simp only [updRound] at h
+    rcases hpr : procEntries im s (b.nodeOut s) (getSlice b.toValidate s) b [] false with k | ⟨b1, kept, ch1⟩
+    · simp [hpr] at h
+    · simp only [hpr] at h
+      obtain ⟨hw1, hst1, hfr1, htv1, k2, hk, hk2, hall⟩ :=
+        procEntries_spec im T s (b.nodeOut s) (getSlice b.toValidate s) b [] false hw hq hp
+          (fun _ hx => hx) (Or.inl rfl) b1 kept ch1 hpr
+      simp only [List.reverse_nil, List.nil_append] at hk
+      subst hk
+      -- the state after writing the slice back
+      let b2 : Builder := { b1 with toValidate := setSlice b1.toValidate s kept }
+      have hu12 : Upd im b b2 T := by
+        refine ⟨hw1, ⟨⟨hst1.mono.tin, hst1.mono.tout, hst1.mono.may⟩, hst1.tin, hst1.tout⟩, hfr1, ?_, ?_⟩
+        · intro s' pe hpe
+          by_cases hs' : s' = s
+          · subst hs'
+            exact hk2 pe (getSlice_setSlice_sub _ _ _ _ hpe)
+          · have : pe ∈ getSlice b1.toValidate s' := by
+              rwa [show b2.toValidate = setSlice b1.toValidate s kept from rfl, getSlice_setSlice_ne _ _ _ _ hs'] at hpe
+            rwa [htv1] at this
+        · intro s' pe hpe
+          by_cases hs' : s' = s
+          · subst hs'
+            rcases hall pe hpe with e | e
+            · left
+              have hkey : s' ∈ b1.toValidate.map (·.1) := by rw [htv1]; exact mem_getSlice_key hpe
+              rw [show b2.toValidate = setSlice b1.toValidate s' kept from rfl, getSlice_setSlice_self _ _ _ hkey]
+              exact e
+            · right; exact e
+          · left
+            rw [show b2.toValidate = setSlice b1.toValidate s kept from rfl, getSlice_setSlice_ne _ _ _ _ hs', htv1]
+            exact hpe
+      have hu2 := ih b2 (ch || ch1) hu12.wf (hu12.q hq) (hu12.pn hp) b' ch' h
+      exact hu12.trans hu2
+
+theorem updLoop_spec (im : Impl) (ord : Ord) (T : Ty) :
+    ∀ (fuel : Nat) (b : Builder), WF b → Q b T → PN b →
+      ∀ b', updLoop im ord fuel b = .ok b' → Upd im b b' T := by
+  intro fuel
+  induction fuel with
+  | zero =>
+    intro b hw _ _ b' h
+    simp only [updLoop, Except.ok.injEq] at h
+    subst h; exact Upd.refl im hw T
+  | succ n ih =>
+    intro b hw hq hp b' h
+    simp only [updLoop] at h
+    rcases hr : updRound im (ord.keys b (b.toValidate.map (·.1))) b false with k | ⟨b1, ch⟩
+    · simp [hr] at h
+    · simp only [hr] at h
+      have hu1 := updRound_spec im T _ b false hw hq hp b1 ch hr
+      split at h
+      · exact hu1.trans (ih b1 hu1.wf (hu1.q hq) (hu1.pn hp) b' h)
+      · simp only [Except.ok.injEq] at h; subst h; exact hu1
+
+
+/-! ### the loop reaches its fixpoint: afterwards every pending entry joins two untyped nodes -/
+
+/-- facts about one pass that do not need the invariants: the change flag is monotone, the
+    slice never grows, it shrinks when the flag is raised, and without a change nothing moved
+    and every entry was seen with both types unknown -/
+theorem procEntries_shape (im : Impl) (s : Key) (sTy : Option Ty) :
+    ∀ (entries : List PEdge) (b : Builder) (kept : List PEdge) (ch : Bool) b' kept' ch',
+      procEntries im s sTy entries b kept ch = .ok (b', kept', ch') →
+      (ch = true → ch' = true) ∧
+      kept'.length ≤ kept.length + entries.length ∧
+      (ch = false → ch' = true → kept'.length < kept.length + entries.length) ∧
+      (ch' = false → b' = b ∧ kept' = kept.reverse ++ entries ∧
+         ∀ pe ∈ entries, sTy = none ∧ b.nodeIn pe.dst = none) := by
+  intro entries
+  induction entries with
+  | nil =>
+    intro b kept ch b' kept' ch' h
+    simp only [procEntries, Except.ok.injEq, Prod.mk.injEq] at h
+    obtain ⟨rfl, rfl, rfl⟩ := h
+    simp
+  | cons pe rest ih =>
+    intro b kept ch b' kept' ch' h
+    -- every branch other than (nil, nil) continues with the flag raised
+    have raised : ∀ (b1 : Builder), procEntries im s sTy rest b1 kept true = .ok (b', kept', ch') →
+        (ch = true → ch' = true) ∧ kept'.length ≤ kept.length + (pe :: rest).length ∧
+        (ch = false → ch' = true → kept'.length < kept.length + (pe :: rest).length) ∧
+        (ch' = false → b' = b ∧ kept' = kept.reverse ++ pe :: rest ∧
+           ∀ x ∈ pe :: rest, sTy = none ∧ b.nodeIn x.dst = none) := by
+      intro b1 h1
+      have := ih b1 kept true b' kept' ch' h1
+      have ht : ch' = true := this.1 rfl
+      refine ⟨fun _ => ht, ?_, ?_, ?_⟩
+      · simp only [List.length_cons]; omega
+      · intro _ _; simp only [List.length_cons]; omega
+      · intro hf; rw [ht] at hf; simp at hf
+    rcases hs : sTy with _ | st <;> rcases hd : b.nodeIn pe.dst with _ | et
+    · subst hs
+      simp only [procEntries, hd] at h
+      have := ih b (pe :: kept) ch b' kept' ch' h
+      refine ⟨this.1, ?_, ?_, ?_⟩
+      · have := this.2.1; simp only [List.length_cons] at this ⊢; omega
+      · intro h1 h2; have := this.2.2.1 h1 h2; simp only [List.length_cons] at this ⊢; omega
+      · intro hf
+        obtain ⟨e1, e2, e3⟩ := this.2.2.2 hf
+        refine ⟨e1, by simp [e2], ?_⟩
+        intro x hx
+        rcases List.mem_cons.mp hx with e | e
+        · subst e; exact ⟨rfl, hd⟩
+        · exact e3 x e
+    · subst hs
+      simp only [procEntries, hd] at h
+      exact raised _ h
+    · subst hs
+      simp only [procEntries, hd] at h
+      exact raised _ h
+    · subst hs
+      simp only [procEntries, hd] at h
+      rcases hm : pe.mapped with _ | t
+      · simp only [hm] at h
+        rcases hc : checkAssignable im (some st) (some et) with _ | _ | _
+        · simp [hc] at h
+        · simp only [hc] at h; exact raised _ h
+        · simp only [hc] at h; exact raised _ h
+      · simp only [hm] at h
+        exact raised _ h
+
+theorem updRound_shape (im : Impl) :
+    ∀ (ks : List Key) (b : Builder) (ch : Bool) b' ch', updRound im ks b ch = .ok (b', ch') →
+      (ch = true → ch' = true) ∧
+      pendingCount b'.toValidate ≤ pendingCount b.toValidate ∧
+      (ch = false → ch' = true → pendingCount b'.toValidate < pendingCount b.toValidate) ∧
+      (ch' = false → b' = b ∧ ∀ s ∈ ks, ∀ pe ∈ getSlice b.toValidate s, b.nodeOut s = none ∧ b.nodeIn pe.dst = none) := by
+  intro ks
+  induction ks with
+  | nil =>
+    intro b ch b' ch' h
+    simp only [updRound, Except.ok.injEq, Prod.mk.injEq] at h
+    obtain ⟨rfl, rfl⟩ := h
+    simp
+  | cons s ks ih =>
+    intro b ch b' ch' h
+    simp only [updRound] at h
+    rcases hpr : procEntries im s (b.nodeOut s) (getSlice b.toValidate s) b [] false with k | ⟨b1, kept, ch1⟩
+    · simp [hpr] at h
+    · simp only [hpr] at h
+      have hp := procEntries_shape im s (b.nodeOut s) (getSlice b.toValidate s) b [] false b1 kept ch1 hpr
+      have htv1 : b1.toValidate = b.toValidate := by
+        -- procEntries never writes the work list
+        clear h hp
+        have : ∀ (entries : List PEdge) (b : Builder) (kept : List PEdge) (ch : Bool) b' kept' ch' (sTy : Option Ty),
+            procEntries im s sTy entries b kept ch = .ok (b', kept', ch') → b'.toValidate = b.toValidate := by
+          intro entries
+          induction entries with
+          | nil =>
+            intro b kept ch b' kept' ch' sTy h
+            simp only [procEntries, Except.ok.injEq, Prod.mk.injEq] at h
+            rw [← h.1]
+          | cons pe rest ih2 =>
+            intro b kept ch b' kept' ch' sTy h
+            simp only [procEntries] at h
+            repeat' split at h
+            all_goals first | (simp at h; done) | (have := ih2 _ _ _ _ _ _ _ h; simpa [Builder.setTy] using this)
+        exact this _ _ _ _ _ _ _ _ hpr
+      have ih2 := ih _ (ch || ch1) b' ch' h
+      have hlen : kept.length ≤ (getSlice b1.toValidate s).length := by
+        have := hp.2.1; simp only [List.length_nil, Nat.zero_add] at this; rw [htv1]; exact this
+      have hcnt := pendingCount_setSlice_le b1.toValidate s kept hlen
+      have hA : pendingCount (setSlice b1.toValidate s kept) ≤ pendingCount b.toValidate := by
+        have := hcnt.1; rw [htv1] at this ⊢; exact this
+      have hA' : ch1 = true → pendingCount (setSlice b1.toValidate s kept) < pendingCount b.toValidate := by
+        intro hch1
+        have h3 : kept.length < (getSlice b1.toValidate s).length := by
+          have := hp.2.2.1 rfl hch1; simp only [List.length_nil, Nat.zero_add] at this; rw [htv1]; exact this
+        have := hcnt.2 h3; rw [htv1] at this ⊢; exact this
+      have hB : pendingCount b'.toValidate ≤ pendingCount (setSlice b1.toValidate s kept) := ih2.2.1
+      refine ⟨?_, ?_, ?_, ?_⟩
+      · intro hc; exact ih2.1 (by simp [hc])
+      · omega
+      · intro hc hc'
+        cases hch1 : ch1
+        · have hC : pendingCount b'.toValidate < pendingCount (setSlice b1.toValidate s kept) :=
+            ih2.2.2.1 (by simp [hc, hch1]) hc'
+          omega
+        · have := hA' hch1
+          omega
+      · intro hf
+        have hch1 : ch1 = false := by
+          cases hch1 : ch1
+          · rfl
+          · have := ih2.1 (by simp [hch1]); rw [hf] at this; simp at this
+        obtain ⟨e1, e2, e3⟩ := hp.2.2.2 hch1
+        simp only [List.reverse_nil, List.nil_append] at e2
+        subst e1
+        have hb2 : ({ b1 with toValidate := setSlice b1.toValidate s kept } : Builder) = b1 := by
+          rw [e2, setSlice_same]
+        rw [hb2] at ih2
+        obtain ⟨f1, f2⟩ := ih2.2.2.2 hf
+        refine ⟨f1, ?_⟩
+        intro s' hs' pe hpe
+        rcases List.mem_cons.mp hs' with e | e
+        · subst e
+          have := e3 pe hpe
+          exact ⟨this.1.symm ▸ rfl, this.2⟩
+        · exact f2 s' e pe hpe
+
+
+/-- between calls: every pending entry joins two nodes whose types are both still unknown -/
+def I2 (b : Builder) : Prop :=
+  ∀ s pe, pe ∈ getSlice b.toValidate s → b.nodeOut s = none ∧ b.nodeIn pe.dst = none
+
+theorem updLoop_fix (im : Impl) (ord : Ord) (hv : ord.Valid) :
+    ∀ (fuel : Nat) (b b' : Builder), pendingCount b.toValidate < fuel →
+      updLoop im ord fuel b = .ok b' → I2 b' := by
+  intro fuel
+  induction fuel with
+  | zero => intro b b' h; omega
+  | succ n ih =>
+    intro b b' hlt h
+    simp only [updLoop] at h
+    rcases hr : updRound im (ord.keys b (b.toValidate.map (·.1))) b false with k | ⟨b1, ch⟩
+    · simp [hr] at h
+    · simp only [hr] at h
+      have hs := updRound_shape im _ b false b1 ch hr
+      cases hch : ch
+      · simp only [hch, Bool.false_eq_true, ↓reduceIte, Except.ok.injEq] at h
+        subst h
+        obtain ⟨e1, e2⟩ := hs.2.2.2 hch
+        subst e1
+        intro s pe hpe
+        have hk : s ∈ b1.toValidate.map (·.1) := mem_getSlice_key hpe
+        have : s ∈ ord.keys b1 (b1.toValidate.map (·.1)) := ((hv.keys b1 _).mem_iff).mpr hk
+        exact e2 s this pe hpe
+      · simp only [hch, ↓reduceIte] at h
+        have := hs.2.2.1 rfl hch
+        exact ih b1 b' (by omega) h
+
+/-- **the contract of `updateToValidateMap`**, for every iteration order: started from a
+    well-formed state in which every half-typed pending entry has its typed end typed `T`, it
+    keeps all known types, resolves entries only soundly, and ends with all remaining entries
+    joining untyped nodes. -/
+theorem update_spec (im : Impl) (ord : Ord) (hv : ord.Valid) (T : Ty) (b b' : Builder)
+    (hw : WF b) (hq : Q b T) (hp : PN b) (h : update im ord b = .ok b') :
+    Upd im b b' T ∧ I2 b' ∧ PN b' :=
+  have hu := updLoop_spec im ord T _ b hw hq hp b' h
+  ⟨hu, updLoop_fix im ord hv _ b b' (Nat.lt_succ_self _) h, hu.pn hp⟩
+
+
+/-! ### the invariant between calls -/
+
+theorem getSlice_addPending (tv : List (Key × List PEdge)) (s s' : Key) (pe : PEdge) :
+    getSlice (addPending tv s pe) s' = if s' = s then getSlice tv s ++ [pe] else getSlice tv s' := by
+  induction tv with
+  | nil =>
+    simp only [addPending, getSlice]
+    by_cases h : s' = s
+    · simp [h]
+    · have : ¬ s = s' := fun e => h e.symm
+      simp [h, this]
+  | cons p tv ih =>
+    obtain ⟨k, l⟩ := p
+    simp only [addPending]
+    by_cases hk : k = s
+    · subst hk
+      simp only [↓reduceIte, getSlice]
+      by_cases h : s' = k
+      · simp [h]
+      · have : ¬ k = s' := fun e => h e.symm
+        simp [h, this]
+    · simp only [hk, ↓reduceIte, getSlice]
+      by_cases h2 : k = s'
+      · subst h2; simp [hk]
+      · simp only [h2, ↓reduceIte]; exact ih
+
+/-- a data connection of the graph under construction: an edge, or a branch start with one of
+    the branch's end nodes -/
+def Conn (b : Builder) (s e : Key) : Prop :=
+  (s, e) ∈ b.dataEdges ∨ ∃ br ∈ b.branches, br.src = s ∧ e ∈ br.ends ∧ br.noData = false
+
+def Pending (b : Builder) (s e : Key) : Prop := ∃ pe ∈ getSlice b.toValidate s, pe.dst = e
+
+/-- `X`: connections whose edge / branch record is not stored yet (the call is still running) -/
+structure InvC (im : Impl) (b : Builder) (X : List (Key × Key)) : Prop where
+  wf : WF b
+  i2 : I2 b
+  pn : PN b
+  conn : ∀ s e, (Conn b s e ∨ (s, e) ∈ X) → Pending b s e ∨ SoundE im b s e
+
+theorem I2.q {b : Builder} (h : I2 b) (T : Ty) : Q b T := by
+  intro s pe hpe
+  have := h s pe hpe
+  exact ⟨fun _ => Or.inl this.2, fun _ => Or.inl this.1⟩
+
+theorem Frame.dataEdges {b b' : Builder} (h : Frame b b') : b'.dataEdges = b.dataEdges := by
+  simp only [Frame, Builder.frame, Prod.mk.injEq] at h; exact h.2.2.2.2.2.1
+theorem Frame.branches {b b' : Builder} (h : Frame b b') : b'.branches = b.branches := by
+  simp only [Frame, Builder.frame, Prod.mk.injEq] at h; exact h.2.2.2.2.2.2.1
+theorem Frame.preBranch {b b' : Builder} (h : Frame b b') : b'.preBranch = b.preBranch := by
+  simp only [Frame, Builder.frame, Prod.mk.injEq] at h; exact h.2.2.2.2.2.2.2.2.2.2.2.1
+theorem Frame.io {b b' : Builder} (h : Frame b b') : b'.inT = b.inT ∧ b'.outT = b.outT := by
+  simp only [Frame, Builder.frame, Prod.mk.injEq] at h; exact ⟨h.2.1, h.2.2.1⟩
+
+theorem Frame.conn {b b' : Builder} (h : Frame b b') (s e : Key) : Conn b' s e ↔ Conn b s e := by
+  unfold Conn; rw [h.dataEdges, h.branches]
+
+/-- adding one pending data connection `s → e` and running the work list -/
+theorem data_step (im : Impl) (ord : Ord) (hv : ord.Valid) (b b2 : Builder) (X : List (Key × Key)) (s e : Key)
+    (hi : InvC im b X)
+    (hs : b.hasNode s = true ∨ b.nodeOut s ≠ none) (he : b.hasNode e = true ∨ b.nodeIn e ≠ none)
+    (h : update im ord (b.addToValidate s { dst := e, mapped := none }) = .ok b2) :
+    InvC im b2 ((s, e) :: X) ∧ Frame b b2 ∧ Mono b b2 := by
+  let pe : PEdge := { dst := e, mapped := none }
+  let b1 := b.addToValidate s pe
+  let T : Ty := match b.nodeOut s, b.nodeIn e with
+    | none, some B => B
+    | some A, none => A
+    | _, _ => Ty.any
+  have hsl : ∀ s' x, x ∈ getSlice b1.toValidate s' ↔ (x ∈ getSlice b.toValidate s' ∨ (s' = s ∧ x = pe)) := by
+    intro s' x
+    show x ∈ getSlice (addPending b.toValidate s pe) s' ↔ _
+    rw [getSlice_addPending]
+    by_cases hs' : s' = s
+    · subst hs'; simp
+    · simp [hs']
+  have hw1 : WF b1 := hi.wf
+  have hq1 : Q b1 T := by
+    intro s' x hx
+    rcases (hsl s' x).mp hx with hx | ⟨rfl, rfl⟩
+    · exact hi.i2.q T s' x hx
+    · show (b.nodeOut s' = none → b.nodeIn e = none ∨ b.nodeIn e = some T) ∧
+           (b.nodeIn e = none → b.nodeOut s' = none ∨ b.nodeOut s' = some T)
+      rcases ho : b.nodeOut s' with _ | A <;> rcases hin : b.nodeIn e with _ | B <;> simp [T, ho, hin]
+  have hp1 : PN b1 := by
+    intro s' x hx
+    rcases (hsl s' x).mp hx with hx | ⟨rfl, rfl⟩
+    · exact hi.pn s' x hx
+    · refine ⟨fun hn => ?_, fun hn => ?_, rfl⟩
+      · rcases he with he | he
+        · exact he
+        · exact absurd hn he
+      · rcases hs with hs | hs
+        · exact hs
+        · exact absurd hn hs
+  obtain ⟨hu, hi2, hpn⟩ := update_spec im ord hv T b1 b2 hw1 hq1 hp1 h
+  refine ⟨⟨hu.wf, hi2, hpn, ?_⟩, hu.frame, ⟨hu.step.mono.tin, hu.step.mono.tout, hu.step.mono.may⟩⟩
+  intro s' e' hc
+  have hres : ∀ x, x ∈ getSlice b1.toValidate s' → x.dst = e' → Pending b2 s' e' ∨ SoundE im b2 s' e' := by
+    intro x hx hd
+    rcases hu.resolved s' x hx with r | r
+    · exact Or.inl ⟨x, r, hd⟩
+    · exact Or.inr (hd ▸ r)
+  have old : (Conn b s' e' ∨ (s', e') ∈ X) → Pending b2 s' e' ∨ SoundE im b2 s' e' := by
+    intro hc
+    rcases hi.conn s' e' hc with ⟨x, hx, hd⟩ | hsnd
+    · exact hres x ((hsl s' x).mpr (Or.inl hx)) hd
+    · exact Or.inr (SoundE.mono (b := b1) hu.step.mono hsnd)
+  rcases hc with hc | hc
+  · exact old (Or.inl ((hu.frame.conn s' e').mp hc))
+  · rcases List.mem_cons.mp hc with e1 | e1
+    · simp only [Prod.mk.injEq] at e1
+      obtain ⟨rfl, rfl⟩ := e1
+      exact hres pe ((hsl s' pe).mpr (Or.inr ⟨rfl, rfl⟩)) rfl
+    · exact old (Or.inr e1)
+
 end EinoV.Build
